@@ -198,12 +198,15 @@ PROPS = {
     },
     "C08": {
         "batches": lambda tier: ctl_batches("pool", 1500, 30000)(tier) + ctl_batches("srvp", 300, 6000, per=150)(tier)
-                   + [{"bin": "pristine", "args": ["srv", "burst", 10 if tier != "thorough" else 100], "name": "pristine bursts of keep-alive connections"}],
+                   + ctl_batches("vanish", 60, 1500, per=60)(tier) + ctl_batches("vanishdata", 60, 1500, per=60)(tier)
+                   + [{"bin": "pristine", "args": ["srv", "burst", 12 if tier != "thorough" else 120], "name": "pristine bursts of keep-alive connections"}],
         "replay_bin": "controlled", "oracle_col": "C08", "agree_col": "aC08",
+        # conn lines (vanish families): a client that resets at once must not stop the server from serving the others
+        "need": ["fresh", "nohang", "noabort", "seq"], "need_intent": False, "agr_need": ["heads", "seq", "wire", "eof"],
         "rule": "TaskPool of the generated copy under the deterministic scheduler: bursts of 1..40 tasks (gaps 0 / 10 us / 1 ms / 6 s, before or after the initial workers "
                 "went idle), tasks block on a gate that stays shut (keep-alive connections that never end) or end at once; random schedules; every run replayed on the Lean "
                 "LTS (dispatch branch, which worker starts which task); predicate: every dispatched task started although no task ended",
-        "required_tags": ["tasks:5", "tasks:gt16", "tasks:le4", "newthread:1", "queued:1", "presettle:0", "presettle:1", "srv:burst:5", "srv:burst:16", "srv:held", "srvpool:1"],
+        "required_tags": ["tasks:5", "tasks:gt16", "tasks:le4", "newthread:1", "queued:1", "presettle:0", "presettle:1", "srv:burst:5", "srv:burst:16", "srv:burst:200", "srv:held", "srvpool:1", "fam:vanish", "fam:vanishdata"],
         "partial": ["theorem: every queued task is claimed by a woken worker (for all burst patterns and schedules); conservation and at-most-once start",
                     "whole-server isolation over real sockets (N simultaneous keep-alive connections) is sampled by the pristine burst batch"],
         "assumptions": CTL_ASSUMPTIONS,
